@@ -1,7 +1,49 @@
-(* C19 — placeholder while the arithmetic model is being written; see DESIGN.md. *)
-From Coq Require Import ZArith.
-From FxpVerif Require Import Spec ProofsCore.
+(* C19 — no silent wrap at the 64-bit machine boundary in arithmetic or in storing.
+   The theorems of C07 carry NO width hypothesis: they hold when the exact result needs more
+   than 53 or more than 64 bits, because the _raw_cast guard is proved sound — whenever it
+   leaves the operands in int64 / uint64 / float64, every intermediate is exact. *)
+From Coq Require Import ZArith List Bool.
+From FxpVerif Require Import Spec SpecArith NP Store ProofsCore ProofsStore Arith ProofsArith.
+Import ListNotations.
 Open Scope Z_scope.
-Theorem C19_quantize_in_range : forall f r o v, 1 <= nw f -> in_range f (quantize f r o v).
-Proof. intros f r o v H. exact (overflow_in_range o f _ H). Qed.
-Print Assumptions C19_quantize_in_range.
+
+(* guard soundness, per element: the raw function returns the exact integer in a dtype
+   that can carry it (|z| < 2^63 in int64, reinterpretable in uint64, < 2^53 in float64) *)
+Theorem C19_guard_sound : forall op fx fy cx cy,
+  wf_op fx -> wf_op fy -> mul_pc_ok op fx fy -> in_range fx cx -> in_range fy cy ->
+  raw_elem op fx fy (nf (grow op fx fy)) cx cy = Ok (encode (raw_kind op fx fy) (exact_int op fx fy cx cy))
+  /\ kind_ok (raw_kind op fx fy) (exact_int op fx fy cx cy).
+Proof. exact raw_exact. Qed.
+Print Assumptions C19_guard_sound.
+
+(* add / sub / mul with optimal sizing: exact at every operand width *)
+Theorem C19_arith_any_width : forall op fx fy cxs cys r o,
+  wf_op fx -> wf_op fy -> mul_pc_ok op fx fy -> length cxs = length cys -> cxs <> [] ->
+  Forall (in_range fx) cxs -> Forall (in_range fy) cys ->
+  (op = OpSub -> sg fx || sg fy = true) ->
+  exists w, arith_raw op fx cxs fy cys (grow op fx fy) r o = Ok w /\
+    w_codes w = map (fun p => exact_int op fx fy (fst p) (snd p)) (combine cxs cys) /\
+    w_ovf w = false /\ w_unf w = false.
+Proof. exact arith_optimal_exact. Qed.
+Print Assumptions C19_arith_any_width.
+
+(* storing a Python integer of ANY size into ANY format with n_frac >= 0 follows C01 *)
+Theorem C19_store_python_int : forall f r o v, 1 <= nw f -> 0 <= nf f ->
+  exists w, set_val_real f r o false (pyint_arr v) VInt = Ok w /\
+    w_codes w = [quantize f r o (dy_of_Z v)] /\
+    w_ovf w = ovf_cond f r (dy_of_Z v) /\ w_unf w = unf_cond f r (dy_of_Z v).
+Proof.
+  intros f r o v Hw Hf. destruct (store_pyint_exact f r o v Hw Hf) as (w & Hs & Hc & Ho & Hu).
+  exists w. split; [exact Hs|].
+  assert (E: round_dy r (dy_scale (nf f) (dy_of_Z v)) = v * 2^(nf f)).
+  { unfold dy_scale, dy_of_Z. cbn [dm de]. apply round_dy_int. exact Hf. }
+  unfold quantize, ovf_cond, unf_cond. rewrite E. auto.
+Qed.
+Print Assumptions C19_store_python_int.
+
+(* non-vacuity: witnesses that were wrong before the fix: commits (known_findings.json) *)
+Example C19_nonvacuous :
+  (exists w, set_val_real {| sg := true; nw := 8; nf := 4 |} Trunc Saturate false (pyint_arr (2^60)) VInt = Ok w /\ w_codes w = [127] /\ w_ovf w = true) /\
+  (exists w, arith_raw OpMul {| sg := true; nw := 33; nf := 0 |} [-3298067730] {| sg := false; nw := 27; nf := 6 |} [134217724]
+               {| sg := true; nw := 60; nf := 6 |} Trunc Saturate = Ok w /\ w_codes w = [-442659144318446520]).
+Proof. split; eexists; vm_compute; repeat split; reflexivity. Qed.
